@@ -17,7 +17,7 @@ func init() { register("C15", "other", checkC15) }
 
 func checkC15(w *World, r *Result) {
 	r.Explanation = "Decides structural necessary conditions on generator/go/randdata: TPL-C15f in every instantiation of the container templates each element is produced by the element generator: fixed arrays are filled by a loop over the whole array, slices by a loop over the whole freshly made slice, maps by l insertions of generated key and value; pointers return the address of a generated value (never nil); AGR-C15u the union template lists one generated value per member (lock-step append) and draws the index below len(Members); AGR-C15e the table-based enum template draws an index below len(choix) and returns choix[i], the choices being exactly the exported constants (AGR-C10b, TPL-3: no empty slot); AGR-C15s the struct loop skips exactly unexported fields and fields tagged gomacro-data:\"ignore\" before emitting anything for them, and assigns every other field from the generator named functionID(field type) (AGR-C01a); TPL-C15a termination: some cycle-capable constructor (slice, map, pointer, union) must be able to stop the recursion (zero length, or a conditional call) - today none can (known finding); TPL-1 templates parse. Does not decide: variation across calls, well-formedness of values as a run-time fact, the JSON round trip."
-	r.Rules = []string{"TPL-C15f", "TPL-C15l", "AGR-C15u", "AGR-C15e", "AGR-C15s", "AGR-C10b", "AGR-C01a", "TPL-C15a", "TPL-1", "TPL-3", "AGR-C09c", "AGR-C11f", "GEN-ID", "AGR-C15d", "AGR-C10r", "AGR-C10p", "ALIAS-APPEND", "PRINTF", "CACHE-DROP", "MUT-AN", "AGR-C11c", "AGR-C09c own struct"}
+	r.Rules = []string{"TPL-C15f", "TPL-C15l", "AGR-C15u", "AGR-C15e", "AGR-C15s", "AGR-C10b", "AGR-C01a", "TPL-C15a", "TPL-1", "TPL-3", "AGR-C09c", "AGR-C11f", "GEN-ID", "AGR-C15d", "AGR-C10r", "AGR-C10p", "ALIAS-APPEND", "PRINTF", "CACHE-DROP", "MUT-AN", "AGR-C11c", "AGR-C09c own struct", "ALIAS-STORE"}
 	// the union table consumed by the templates: candidates are the defined named types of the scope, each once (rule shared with C11)
 	checkCandidates(w, r)
 	mutAnRule(w, r, func(rel string) bool { return rel == "generator/go/randdata" })
@@ -25,6 +25,7 @@ func checkC15(w *World, r *Result) {
 	descentDominatesReturns(w, r, "generator/go/randdata")
 	printfRule(w, r, "generator/go/randdata")
 	aliasAppendRule(w, r, func(rel string) bool { return rel == "analysis" || rel == "generator/go/randdata" })
+	aliasStoreRule(w, r, func(rel string) bool { return rel == "analysis" })
 	// the gomacro-data:"ignore" tag the struct loop reads is the field's own, also for fields promoted from an embedded struct
 	checkFlatten(w, r)
 	// the union table the union template draws from (rules shared with C11), names of generic instantiations
